@@ -18,7 +18,7 @@ func init() {
 	register(&Prop{
 		ID:       "C48",
 		Title:    "Files rewritten in place are never left partially written",
-		Patterns: []string{".", "oss.terrastruct.com/util-go/xmain"},
+		Patterns: []string{"./...", "oss.terrastruct.com/util-go/xmain"},
 		Explanation: "Decides two structural clauses, not crash behaviour: (1) who-may-call — in every repository package linked into the d2 binary, each call of a primitive that creates/truncates a named file " +
 			"(os.WriteFile, os.Create, os.OpenFile, xmain.State.WritePath, gofpdf OutputFileAndClose) is the fallback inside d2cli.Write, reached only on the error branch of the atomic writer called first; " +
 			"(2) the atomic writer of the pinned util-go dependency performs CreateTemp(in the target's directory) → Write → Close → Rename in that order on every success path. " +
